@@ -123,6 +123,7 @@ package kmipserver
 //@   requires execOK(exec) && bi != nil && itemOK(*bi) && ctx != nil && (0 < len(exec.biMiddlewares) ==> exec.biMiddlewares[0] != nil)
 //@   ensures len(exec.biMiddlewares) == 0 ==> itemCalls == old(itemCalls)+1 && itemCtx == ctx && itemItem == bi
 //@   ensures len(exec.biMiddlewares) == 0 ==> resp.Operation == bi.Operation && resp.UniqueBatchItemID == bi.UniqueBatchItemID
+//@   ensures 0 < len(exec.biMiddlewares) ==> biCalls == old(biCalls)+1 && biSelf == exec.biMiddlewares[0] && biCtx == ctx && biItem == bi
 //@   ghost ewmCalls = old(ewmCalls) + 1
 //@   ghost ewmCtx = ctx
 //@   ghostmod biCalls, biSelf, biNext, biCtx, biItem, biRet, biErr, itemCalls, itemCtx, itemItem, itemRet, itemErr, handlerCalls
